@@ -1017,6 +1017,11 @@ def bytes_equal(ex, st, a, b, bound=None):
     if n is not None:
         cs = [a.len == b.len] + [a.at(i) == b.at(i) for i in range(n)]
         return simp(z3.And(cs))
+    eb = getattr(ex, 'eq_bound', None)
+    if eb is not None:
+        # exact, bounded: both strings are at most eq_bound bytes long (stated by the spec that sets it)
+        ex.assume(st, z3.And(z3.ULE(a.len, BV(eb, 64)), z3.ULE(b.len, BV(eb, 64))))
+        return simp(z3.And([a.len == b.len] + [z3.Implies(z3.ULT(BV(i, 64), a.len), a.at(i) == b.at(i)) for i in range(eb)]))
     eq = z3.Bool(fresh_name('beq'))
     k = z3.BitVec(fresh_name('k'), 64)
     ex.assume(st, z3.Implies(eq, a.len == b.len))
@@ -1089,10 +1094,19 @@ def box_new(ctx):
 def pointer_identity(ctx):
     a = ctx.args[0]
     if isinstance(a, Ref):
-        inner = ctx.st.mem.get(a.cell)
-        # Deref of &Box<T>/&Arc<T>/&&T : go one level down when the cell holds a pointer
-        if re.search(r'Deref|AsRef|get_mut|get_unchecked_mut', ctx.callee) and not a.path and isinstance(inner, Ref):
-            return inner
+        # Deref of &Box<T>/&Arc<T>/&&T : go one level down when the place holds a pointer
+        if re.search(r'Deref|AsRef|get_mut|get_unchecked_mut', ctx.callee):
+            try:
+                inner = ctx.ex.load(ctx.st, a.cell, a.path)
+            except Unsupported:
+                inner = None
+            if isinstance(inner, Ref):
+                return inner
+            if isinstance(inner, Opaque) and deref_ty(inner.ty) is not None and re.match(r'^(?:std::sync::)?(?:Arc|Box|Rc)<', inner.ty.strip()):
+                nv = ctx.ex.fresh(ctx.st, inner.ty, inner.tag or 'p')
+                if isinstance(nv, Ref):
+                    ctx.ex.store(ctx.st, a.cell, a.path, nv)
+                    return nv
     return a
 
 
@@ -1301,6 +1315,18 @@ def fmt_format(ctx):
 @contract(r'^(?:core::fmt::)?(?:rt::)?Arguments::<.*>::new|^Arguments::new|^Arguments::<.*>::from_str|^(?:core::fmt::rt::)?Argument::<.*>::new_|^core::fmt::rt::Argument::new_|^Arguments::<\'_>::new|^std::fmt::Arguments::<|^core::fmt::Arguments::<')
 def fmt_arguments(ctx):
     return Opaque(ctx.dest_ty or 'fmt', 'fmt')
+
+
+@contract(r'^core::str::<impl str>::parse::<.*>$')
+def str_parse_literal(ctx):
+    """`"literal".parse::<T>()` on a string constant of the program: Ok(some T) -- constants in the source are assumed to be
+    well-formed for their target type (stated assumption); non-constant strings fall through to havoc"""
+    b = ctx.ex.deref(ctx.st, ctx.args[0])
+    if isinstance(b, Bytes) and b.conc is not None and all(concrete(x) is not None for x in b.conc):
+        h, a = generic_args((ctx.dest_ty or '').strip())
+        okv = ctx.ex.fresh(ctx.st, a[0] if a else 'unknown', 'parsed')
+        return mk_result(ctx.ex, ok=okv)
+    return NotImplemented
 
 
 # --------------------------------------------------------------------------- explicit panics
